@@ -1,5 +1,6 @@
 """World: one simulated run = loop + link + hosts + scripted peers + decisions + log."""
 import asyncio
+import collections.abc
 import contextvars
 import hashlib
 import logging
@@ -90,12 +91,30 @@ def _resolve_all_futures_ordered(futs):
     futs.clear()
 
 
-class OrderedSet:
-    """Insertion-ordered replacement for the id()-ordered sets of listeners / futures."""
+class OrderedSet(collections.abc.MutableSet):
+    """Insertion-ordered replacement for the id()-ordered sets of listeners / futures: a full set (every operator of
+    collections.abc.MutableSet), whose iteration order is reproducible, and which - like a real set - refuses to be
+    iterated while it changes size."""
 
     def __init__(self, items=(), reverse=False):
         self._d = dict.fromkeys(items)
         self._reverse = reverse
+
+    @classmethod
+    def _from_iterable(cls, it):
+        return cls(it)
+
+    def _like(self, items):
+        return OrderedSet(items, self._reverse)
+
+    def __or__(self, other):
+        return self._like(list(self._d) + [x for x in other if x not in self._d])
+
+    def __sub__(self, other):
+        return self._like([x for x in self._d if x not in other])
+
+    def __and__(self, other):
+        return self._like([x for x in self._d if x in other])
 
     def add(self, x):
         self._d[x] = None
@@ -116,7 +135,11 @@ class OrderedSet:
         keys = list(self._d)
         if self._reverse:
             keys.reverse()
-        return iter(keys)
+        n = len(keys)
+        for k in keys:
+            yield k
+            if len(self._d) != n:
+                raise RuntimeError("Set changed size during iteration")
 
     def __len__(self):
         return len(self._d)
